@@ -94,7 +94,7 @@ def pre_check(workdir, tier):
     d = os.path.join(workdir, "gen")
     os.makedirs(d, exist_ok=True)
     eq = os.path.join(gtlib.COQ, "gen", "GenMomentsEq.v")
-    names = ["gen%s_eq" % m.replace("_expectation", "") for m in mt.METHODS]
+    names = ["gen%s_eq" % m.replace("_expectation", "") for m in mt.METHODS] + ["dispatch_table_ok", "wrappers_ok"]
     try:
         txt, done = mt.translate(gtlib.REPO)
     except Exception as e:
